@@ -4,6 +4,7 @@
 #include "engine/harness.h"
 #include "regex/SegmentedStringMatcher.h"
 #include "regex/StringMatcher.h"
+#include "regex/PathMatcher.h"
 #include "system/SetupSystem.h"
 #include "syslog/SysLog.h"
 #include <string>
@@ -184,23 +185,76 @@ static void RunRanges(BS & bs)
 // semantics the other modes of this harness judge); the uniqueness report is held against every path of the same number of segments over a small alphabet.
 static void RunSegmented(BS & bs)
 {
-   static const char * const SEGS[] = {"*", "a", "b", "a*", "?", "a\\*", "[ab]", "ab", "(a|b)", "b*", "a,b"};     // (a leading ~ negates the whole segmented match, not its first segment: not generated)
+   static const char * const SEGS[] = {"*", "a", "b", "a*", "?", "a\\*", "[ab]", "ab", "(a|b)", "b*", "a,b"};
    static const char * const SUBJ[] = {"a", "b", "ab", "a*", "c", "aa"};
-   const uint32 n = 1+bs.u8()%3; std::vector<std::string> segs; std::string pat; for (uint32 i=0; i<n; i++) {segs.push_back(SEGS[bs.u8()%11]); if (i) pat += "/"; pat += segs[i];}
-   SegmentedStringMatcher ssm; if (ssm.SetPattern(pat.c_str()).IsError()) vf::Fail("SegmentedStringMatcher rejects [%s]", pat.c_str());
-   std::vector<StringMatcher *> ref; bool allUnique = true; for (uint32 i=0; i<n; i++) {StringMatcher * sm = new StringMatcher(segs[i].c_str()); ref.push_back(sm); if (sm->IsPatternUnique() == false) allUnique = false;}
-   if (ssm.IsPatternUnique() != allUnique) vf::Fail("SegmentedStringMatcher [%s] reports unique=%d, its segments say %d", pat.c_str(), (int)ssm.IsPatternUnique(), (int)allUnique);
-   uint32 total = 1; for (uint32 i=0; i<n; i++) total *= 6; uint32 matches = 0; std::string firstMatch;
-   for (uint32 k=0; k<total; k++)
+   SegmentedStringMatcher ssm;      // one object for both rounds: the second pattern must not inherit anything from the first
+   const uint32 rounds = 1+bs.u8()%2;
+   for (uint32 round=0; round<rounds; round++)
    {
-      std::string path; bool expect = true; uint32 q = k; for (uint32 i=0; i<n; i++) {const char * sj = SUBJ[q%6]; q /= 6; if (i) path += "/"; path += sj; if (ref[i]->Match(sj) == false) expect = false;}
-      const bool got = ssm.Match(path.c_str(), false);
-      if (got != expect) vf::Fail("SegmentedStringMatcher [%s] %s [%s], segment by segment it %s", pat.c_str(), got ? "matches" : "does not match", path.c_str(), expect ? "matches" : "does not");
-      if (got) {if (matches++ == 0) firstMatch = path;}
+      const uint8_t nb = bs.u8(); const uint32 n = 1+nb%3; const bool negated = ((nb/3)%4 == 0);     // a leading ~ negates the whole segmented match, not its first segment
+      std::vector<std::string> segs; std::string pat; if (negated) pat = "~"; for (uint32 i=0; i<n; i++) {segs.push_back(SEGS[bs.u8()%11]); if (i) pat += "/"; pat += segs[i];}
+      if (ssm.SetPattern(pat.c_str()).IsError()) vf::Fail("SegmentedStringMatcher rejects [%s]", pat.c_str());
+      std::vector<StringMatcher *> ref; bool allUnique = true; for (uint32 i=0; i<n; i++) {StringMatcher * sm = new StringMatcher(segs[i].c_str()); ref.push_back(sm); if (sm->IsPatternUnique() == false) allUnique = false;}
+      if ((negated == false)&&(ssm.IsPatternUnique() != allUnique)) vf::Fail("SegmentedStringMatcher [%s] reports unique=%d, its segments say %d", pat.c_str(), (int)ssm.IsPatternUnique(), (int)allUnique);
+      uint32 total = 1; for (uint32 i=0; i<n; i++) total *= 6; uint32 matches = 0; std::string firstMatch;
+      for (uint32 k=0; k<total; k++)
+      {
+         std::string path; bool expect = true; uint32 q = k; for (uint32 i=0; i<n; i++) {const char * sj = SUBJ[q%6]; q /= 6; if (i) path += "/"; path += sj; if (ref[i]->Match(sj) == false) expect = false;}
+         if (negated) expect = !expect;
+         const bool got = ssm.Match(path.c_str(), false);
+         if (got != expect) vf::Fail("SegmentedStringMatcher [%s]%s %s [%s], segment by segment it %s", pat.c_str(), round ? " (the second pattern this object was given)" : "", got ? "matches" : "does not match", path.c_str(), expect ? "matches" : "does not");
+         if (got) {if (matches++ == 0) firstMatch = path;}
+      }
+      if ((negated == false)&&(ssm.IsPatternUnique())&&(matches > 1)) vf::Fail("SegmentedStringMatcher [%s] reports itself unique but matches %u of the %u paths (e.g. [%s])", pat.c_str(), matches, total, firstMatch.c_str());
+      for (uint32 i=0; i<n; i++) delete ref[i];
+      if (negated) vf::Count("case_segmented_pattern_negated"); if (round) vf::Count("case_segmented_matcher_object_reused");
+      vf::Count("mode_segmented_matcher"); if (n >= 2) {vf::NonTrivial(vf::HashStr(pat, 4242+round)); if (vf::WantSample()) vf::Sample("segmented pattern ["+pat+"] against "+std::to_string(total)+" paths");}
    }
-   if ((ssm.IsPatternUnique())&&(matches > 1)) vf::Fail("SegmentedStringMatcher [%s] reports itself unique but matches %u of the %u paths (e.g. [%s])", pat.c_str(), matches, total, firstMatch.c_str());
-   for (uint32 i=0; i<n; i++) delete ref[i];
-   vf::Count("mode_segmented_matcher"); if (n >= 2) {vf::NonTrivial(vf::HashStr(pat, 4242)); if (vf::WantSample()) vf::Sample("segmented pattern ["+pat+"] against "+std::to_string(total)+" paths");}
+}
+
+// A PathMatcher holding several path patterns matches a path iff one of its patterns has as many clauses as the path and matches it clause by clause (each clause by the
+// StringMatcher of that clause: those are judged by the other modes).
+static void RunPathMatcher(BS & bs)
+{
+   static const char * const CL[] = {"*", "a", "b", "a*", "?", "[ab]", "ab", "(a|b)", "b*", "a,b", "x", "~a"};
+   static const char * const SUBJ[] = {"a", "b", "ab", "x", "c"};
+   const uint32 np = 1+bs.u8()%4; std::vector<std::vector<std::string> > pats; PathMatcher pm; std::string desc;
+   for (uint32 p=0; p<np; p++)
+   {
+      const uint32 depth = 1+bs.u8()%2; std::vector<std::string> cl; std::string path; for (uint32 i=0; i<depth; i++) {cl.push_back(CL[bs.u8()%12]); if (i) path += "/"; path += cl[i];}
+      bool dup = false; for (size_t q=0; q<pats.size(); q++) if (pats[q] == cl) dup = true; if (dup) continue;
+      if (pm.PutPathString(path.c_str(), ConstQueryFilterRef()).IsError()) vf::Fail("PutPathString(%s) failed", path.c_str());
+      pats.push_back(cl); desc += (desc.size() ? " " : "")+path;
+   }
+   if (bs.u8()%5 == 0)
+   {
+      // a pattern is taken out again: what is left decides
+      const size_t k = bs.u8()%pats.size(); std::string path; for (size_t i=0; i<pats[k].size(); i++) {if (i) path += "/"; path += pats[k][i];}
+      if (pm.RemovePathString(path.c_str()).IsError()) vf::Fail("RemovePathString(%s) failed on a pattern that was put", path.c_str());
+      pats.erase(pats.begin()+k); desc += " minus "+path; vf::Count("case_path_pattern_removed");
+   }
+   uint32 hits = 0, checks = 0; bool laterPatternDecided = false;
+   for (uint32 depth=1; depth<=2; depth++)
+   {
+      uint32 total = 1; for (uint32 i=0; i<depth; i++) total *= 5;
+      for (uint32 k=0; k<total; k++)
+      {
+         std::vector<std::string> sj; uint32 q = k; std::string path; for (uint32 i=0; i<depth; i++) {sj.push_back(SUBJ[q%5]); q /= 5; path += "/"; path += sj[i];}
+         bool expect = false; int firstSameDepth = -1;
+         for (size_t p=0; p<pats.size(); p++) if (pats[p].size() == depth)
+         {
+            bool m = true; for (uint32 i=0; i<depth; i++) {StringMatcher sm(pats[p][i].c_str()); if (sm.Match(sj[i].c_str()) == false) m = false;}
+            if (firstSameDepth < 0) firstSameDepth = (int) p;
+            if (m) {expect = true; if ((int)p != firstSameDepth) laterPatternDecided = true; break;}
+         }
+         const bool slash = ((k+depth)%2 == 0);     // with and without the leading slash
+         const bool got = pm.MatchesPath(slash ? path.c_str() : path.c_str()+1, NULL, NULL); checks++;
+         if (got != expect) vf::Fail("PathMatcher holding [%s] %s the path [%s]; pattern by pattern, clause by clause, it %s", desc.c_str(), got ? "matches" : "does not match", slash ? path.c_str() : path.c_str()+1, expect ? "matches" : "does not");
+         if (got) hits++;
+      }
+   }
+   vf::Count("mode_path_matcher"); vf::Count("path_matcher_checks", checks); if (laterPatternDecided) vf::Count("case_path_matched_by_a_later_pattern_of_its_depth_only");
+   if ((pats.size() >= 2)&&(hits)&&(hits < checks)) {vf::NonTrivial(vf::HashStr(desc, 777)); if (vf::WantSample()) vf::Sample("path matcher holding ["+desc+"]: "+std::to_string(hits)+" of "+std::to_string(checks)+" paths match");}
 }
 
 // The law the node-tree traversal relies on (C05), on raw pattern strings: a pattern that reports itself unique matches exactly RemoveEscapeChars(pattern), and a
@@ -228,7 +282,7 @@ extern "C" int vf_run_case(const uint8_t * data, size_t size)
    BS bs(data, size);
    const uint8_t mode = bs.u8()%8;
    if (mode == 7) {RunRanges(bs); return 0;}
-   if (mode == 5) {if (bs.u8()&1) RunSegmented(bs); else RunRawUniqueness(bs); return 0;}
+   if (mode == 5) {const uint8_t mb = bs.u8(); if (mb&1) RunSegmented(bs); else if (mb&2) RunPathMatcher(bs); else RunRawUniqueness(bs); return 0;}
    if (mode == 6)
    {
       // escape law on arbitrary byte strings (no NUL): the escaped string is a pattern that matches that string and no other, and is reported unique
@@ -251,7 +305,8 @@ extern "C" int vf_run_case(const uint8_t * data, size_t size)
    }
 
    const bool f14 = vf::AllowKnown("F14"); if (f14 == false) vf::Excluded("F14", 0);
-   const bool meta = (bs.u8()%3) != 0; const bool negate = (bs.u8()%5) == 0; const uint32 ntop = 1+bs.u8()%3;
+   const bool meta = (bs.u8()%3) != 0; const uint8_t ngb = bs.u8(); const bool negate = (ngb%5) == 0; const uint32 ntop = 1+bs.u8()%3;
+   const bool reuse = ((ngb/5)%4 == 0); const uint32 prevKind = (ngb/20)%6;     // a matcher object that has held a pattern of another kind before (negated, numeric range, plain literal, regex, comma list)
    g_constructs = 0;
    std::vector<Seq> tops; for (uint32 i=0; i<ntop; i++) tops.push_back(GenSeq(bs, 0, meta, f14));
    std::string pat; if (negate) pat.push_back('~');
@@ -263,7 +318,9 @@ extern "C" int vf_run_case(const uint8_t * data, size_t size)
       pat += part;
    }
    if (ntop > 1) g_constructs++; if (negate) g_constructs++;
-   StringMatcher sm; if (sm.SetPattern(pat.c_str()).IsError()) FAIL("SetPattern rejected the well-formed pattern [%s]", vf::Esc(pat).c_str());
+   StringMatcher sm;
+   if (reuse) {static const char * const PREV[] = {"~a*", "<3-7>", "abc", "[a-c]?(x|y)", "a,b,c", "~<10-20,30->"}; if (sm.SetPattern(PREV[prevKind]).IsError()) FAIL("SetPattern rejected [%s]", PREV[prevKind]); (void) sm.Match("5"); vf::Count("case_matcher_object_reused");}
+   if (sm.SetPattern(pat.c_str()).IsError()) FAIL("SetPattern rejected the well-formed pattern [%s]", vf::Esc(pat).c_str());
 
    NFA nfa; const int start = nfa.NewState(); const int accept = nfa.NewState();
    for (uint32 i=0; i<ntop; i++) {const int a0 = nfa.NewState(); nfa.Add(start, a0, 0); const int a1 = nfa.BuildSeq(tops[i], a0); nfa.Add(a1, accept, 0);}
